@@ -187,20 +187,34 @@ Fixpoint lua_gmatch_all (fuel : nat) (m : matcher) (s : bytes) (src last : Z) : 
 Definition lua_gmatch (m : matcher) (s : bytes) (init : Z) : option (list (Z * Z * list cap)) :=
   lua_gmatch_all (S (S (length s))) m s init (-1).
 
-(* string.gmatch: gmatch_next calls ms:match(state.init) and sets state.init = endpos *)
-Fixpoint nl_gmatch_all (fuel : nat) (m : matcher) (s : bytes) (anchor : bool) (init : Z) : option (list (Z * Z * list cap)) :=
+(* string.gmatch (after 0222fe3 / 893bab4): the state keeps [lastend] = end of the last match + 1 (0: none);
+   gmatch_next calls ms:match(state.init) and, while the match found ends where the last one ended,
+   calls ms:match(startpos + 1) again; a leading '^' is no anchor (ms.anchor = false).
+   [k] bounds the retries. *)
+Fixpoint nl_gmatch_next (k : nat) (m : matcher) (s : bytes) (pos lastend : Z) : option (Z * Z * list cap) :=
+  match nl_ms_match s m false pos with
+  | None => None
+  | Some (st, e, c) =>
+      if e + 1 =? lastend then
+        match k with O => None | S k' => nl_gmatch_next k' m s (st + 1) lastend end
+      else Some (st, e, c)
+  end.
+
+Fixpoint nl_gmatch_all (fuel : nat) (m : matcher) (s : bytes) (init lastend : Z) : option (list (Z * Z * list cap)) :=
   match fuel with
   | O => None
   | S f =>
-      match nl_ms_match s m anchor init with
+      match nl_gmatch_next (S (length s)) m s init lastend with
       | None => Some []
       | Some (st, e, c) =>
-          match nl_gmatch_all f m s anchor e with
+          match nl_gmatch_all f m s e (e + 1) with
           | None => None
           | Some l => Some ((st, e, c) :: l)
           end
       end
   end.
+Definition nl_gmatch (m : matcher) (s : bytes) (init : Z) : option (list (Z * Z * list cap)) :=
+  nl_gmatch_all (S (S (length s))) m s init 0.
 
 (* ---------- max / min over a domain whose order may be partial (floats: NaN, signed zeros) ---------- *)
 Section MinMax.
@@ -209,7 +223,7 @@ Section MinMax.
   (* lmathlib.c math_max / math_min with two arguments *)
   Definition lua_max2_gen (x y : A) : A := if lt x y then y else x.
   Definition lua_min2_gen (x y : A) : A := if lt y x then y else x.
-  (* math.nelua:  y < x and x or y   /   x < y and x or y *)
-  Definition nl_max2_gen (x y : A) : A := if lt y x then x else y.
-  Definition nl_min2_gen (x y : A) : A := if lt x y then x else y.
+  (* math.nelua (after 873f3b9):  x < y and y or x   /   y < x and y or x *)
+  Definition nl_max2_gen (x y : A) : A := if lt x y then y else x.
+  Definition nl_min2_gen (x y : A) : A := if lt y x then y else x.
 End MinMax.
